@@ -2,6 +2,7 @@
 (engine/util.py::TransactionalContext.__enter__/__exit__/_trans_ctx_check) under proof — the link to the enclosing transaction is
 restored on every path — and the operation-sequence exploration on SQLite (checks/C23_explore.py) as the bounded complement."""
 import contracts.transaction_ctx  # noqa: F401
+import contracts.transaction_root  # noqa: F401
 from pyvc.contract import FUNCS
 from vlib.proof import run_proofs
 from checks import C23_explore
